@@ -174,6 +174,24 @@ pub fn run(prop: &str, args: &Args) -> LegResult {
     // process re-executes the first runs of that shard; the two event-log hashes must agree
     let st_n: u64 = if args.no_selftest { 0 } else if args.tier == "thorough" { 1000 } else { 150 };
     let mut selftest_note = String::from("skipped");
+    // C40 has a single program that every shard process loads: build its simulator dylib once,
+    // in one process, before the shards start (on a cold cache each of them would otherwise
+    // rebuild it in turn)
+    if prop == "C40" {
+        let mut envs = base.clone();
+        envs.push(("VERIF_E5_SHARD", "0/8".to_string()));
+        envs.push(("VERIF_E5_RUNS", "1".to_string()));
+        match run_capture(cargo_test(prop, &envs, None)) {
+            Ok((true, _, _)) => {}
+            Ok((false, so, se)) => {
+                if !panic_site(&se).is_some_and(|(loc, _)| site_in_sut(&loc)) {
+                    return fail2(format!("pre-warming process failed:\n{}\n{}", tail(&so, 10), tail(&se, 25)));
+                }
+            }
+            Err(e) => return fail2(e),
+        }
+    }
+
     // --- the batch, in shard processes
     let k = args.threads.clamp(1, 8) as u64;
     let outdir = engine_dir().join("target").join("e2e-legs");
